@@ -33,9 +33,10 @@ type Block struct {
 
 // Node simulates the full node behind the wallet with mass-core's real chain database.
 type Node struct {
-	Dir string
-	CDB database.Db // the real ldb.ChainDb
-	DB  database.Db // what the wallet sees (CDB or a wrapper around it)
+	Dir  string
+	CDB  database.Db // the real ldb.ChainDb
+	DB   database.Db // what the wallet sees (CDB or a wrapper around it)
+	Wrap *CDB
 
 	mu        sync.Mutex
 	Genesis   *Block
@@ -86,7 +87,8 @@ func NewNode(dir string) (*Node, error) {
 	if err := cdb.InitByGenesisBlock(g); err != nil {
 		return nil, err
 	}
-	n := &Node{Dir: dir, CDB: cdb, DB: cdb, All: map[wire.Hash]*Block{}, listeners: map[blockchain.Listener]struct{}{},
+	wrapped := WrapChainDB(cdb)
+	n := &Node{Dir: dir, CDB: cdb, DB: wrapped, Wrap: wrapped, All: map[wire.Hash]*Block{}, listeners: map[blockchain.Listener]struct{}{},
 		sm: fabricateSyncManager(), pool: blockchain.NewTxPool(nil, nil, nil)}
 	gb := &Block{Msg: config.ChainParams.GenesisBlock, Hash: config.ChainParams.GenesisBlock.BlockHash(), Height: 0}
 	n.Genesis = gb
